@@ -277,6 +277,10 @@ def _generic_run(self, cspec, argvals):
             return list(value) + [{1, 2}]
         if kind in ('gen', 'genlazy'):
             return (x for x in list(value) + [{1, 2}])
+        if kind == 'listnp':
+            # more arrays than the real value has, the last one not picklable: saving fails after files were written
+            import numpy as np
+            return list(value) + [np.zeros(1), np.array([lambda: 0], dtype=object)]
         # other kinds have no unserializable member of their type: behave as mistyped
         return _Mistyped()
     if kind in ('gen', 'genlazy'):
@@ -296,7 +300,11 @@ def _generic_run(self, cspec, argvals):
         return _g()
     if kind == 'dir':
         data = self.get_data_object()
+        # scratch file private to this attempt, removed before returning: work of a killed attempt must never be published
+        scratch = data.dir / f'scratch_{runid}.tmp'
+        scratch.write_text('work in progress')
         V.write_dir_spec(value, data.dir)
+        scratch.unlink()
         return data
     if kind == 'cont':
         steps = cspec.get('cont_steps', 1)
@@ -898,6 +906,11 @@ class Proc:
 
     def op_disarm(self, op):
         ST.run_faults.clear()
+        return {'ok': True}
+
+    def op_quietlog(self, op):
+        # the user silences logging process-wide: runs then emit nothing into their log files
+        logging.disable(logging.CRITICAL if op.get('on', True) else logging.NOTSET)
         return {'ok': True}
 
     def op_drop(self, op):
